@@ -277,6 +277,17 @@ def play(ctx, hist, cm, gl, cla, arguments, model_state):
                                      f"{op} returned a state sharing a cluster object with the state it was given: assigning "
                                      f"labels to the returned state leaves the given state's membership not matching its labels",
                                      {"site": "phase-output-aliases-input", "op": op}))
+        if op == "assign":
+            # frame of the label setter (assign_frame): a state that shares no cluster OBJECT with the assigned state
+            # keeps its labels, membership and statistics (sharing through a shallow state copy is the documented hazard)
+            mine = {id(c) for c in st.clusters}
+            for i, (b, a, x) in enumerate(zip(before, after, states)):
+                if x is st or ({id(c) for c in x.clusters} & mine):
+                    continue
+                if not tu.snapshots_equal(b, a):
+                    problems.append(("assign-frame", f"assigning labels to state {s} altered labels/membership/statistics of "
+                                     f"state {i}, which shares no cluster object with it", {"site": "assign-frame"}))
+                    break
         if op == "assign" and (changed or input_ok) and not partition_ok(st):
             problems.append(("assign-inv", "membership not re-derived by the label setter", {"site": "assign-inv"}))
         dumps.append(dump(states))
